@@ -273,6 +273,10 @@ func hashProfileLabels(labels []*prof.Label) uint64 {
 }
 
 func hashLocations(locations []uint64) uint64 {
+	if len(locations) == 0 {
+		return 0
+	}
+
 	// Convert []uint64 to []byte
 	u8Arr := unsafe.Slice((*byte)(unsafe.Pointer(&locations[0])), len(locations)*8)
 
